@@ -211,23 +211,36 @@ pub fn compare_plain(
     let limit = io.adopted_at.unwrap_or(usize::MAX);
     let exp = &io.output[..io.output.len().min(limit)];
     let got = &outcome.stdout;
-    let cmp_len = if io.adopted_at.is_some() { exp.len().min(got.len()) } else { exp.len().max(got.len()) };
-    let differs = if io.adopted_at.is_some() {
-        got.len() < exp.len() || got[..cmp_len] != exp[..cmp_len]
-    } else {
-        got[..] != exp[..]
-    };
-    if differs {
-        let at = (0..cmp_len).find(|i| got.get(*i) != exp.get(*i)).unwrap_or(cmp_len.min(got.len().min(exp.len())));
+    let mut verdict = io.output_matches(got);
+    if verdict.is_err() && io.puts_ambiguous_at.is_some() {
+        // The other reading of the PUTS terminator, applied to the whole run
+        if let Ok(mut other) = Vm::load(&words, stack, minimal) {
+            other.puts_whole_word = true;
+            let mut io2 = Io::with_input(input);
+            let _ = other.run(&mut io2, fuel, None);
+            if io2.output_matches(got).is_ok() {
+                report.hit("adopted:puts_ends_at_whole_zero_word");
+                verdict = Ok(());
+            }
+        }
+    } else if io.puts_ambiguous_at.is_some() {
+        report.hit("adopted:puts_ends_at_zero_low_byte");
+    }
+    if !io.tables.is_empty() {
+        report.count("probe:register_table_contents_compared", io.tables.len() as u64);
+    }
+    if let Err(miss) = verdict {
         // Which trap produced the first differing reference byte?
-        let vect = output_source(&words, stack, minimal, input, fuel, at);
+        let vect = if miss.in_table { 0x27 } else { output_source(&words, stack, minimal, input, fuel, miss.exp_at) };
+        let (at, eat) = (miss.got_at, miss.exp_at);
         v.push(viol(
             format!("C03/output/trap=x{:02x}", vect),
             format!(
-                "stdout differs at byte {}: real {:?}, reference {:?}",
+                "stdout differs at byte {}{}: real {:?}, reference {:?}",
                 at,
+                if miss.in_table { " (register table: values missing or out of order)" } else { "" },
                 String::from_utf8_lossy(&got[at.saturating_sub(8).min(got.len())..(at + 16).min(got.len())]),
-                String::from_utf8_lossy(&exp[at.saturating_sub(8).min(exp.len())..(at + 16).min(exp.len())])
+                String::from_utf8_lossy(&exp[eat.saturating_sub(8).min(exp.len())..(eat + 16).min(exp.len())])
             ),
         ));
     }
@@ -528,7 +541,7 @@ impl Check for C03 {
             "RefVm (written from the ISA tables, README and air.rs format comment) is the reference machine; LEA sets condition codes and JSRR links before jumping (2nd-edition ISA wording) as lace documents no deviation".into(),
             "words of assembled programs are read back from the real machine after load, so encoder defects (C01, not claimed) cannot masquerade as VM defects".into(),
             "process exit is observed as a typed unwind raised in front of std::process::exit (hook); the thorough tier cross-checks real exit statuses through the shipped binary".into(),
-            "PUTS on a word with zero low byte and non-zero high byte, characters above 0xFF and the non-minimal REG table are not specified: output comparison of such a run stops there (counted as adopted)".into(),
+            "PUTS ends at a word with a zero low byte (lace) or at a word that is x0000 (ISA wording): a run must follow one of the two readings as a whole; the layout of the non-minimal REG table is decoration, but it must show R0..R7, PC and CC values in that order (0x%04x / %03b) and end within its last line or up to four border lines; a PUTS character word above 0xFF is not specified: output comparison of such a run stops there (counted as adopted)".into(),
             "RTI is documented as unimplemented: runs that reach it are discarded".into(),
         ]
     }
